@@ -6,7 +6,6 @@ import (
 	"encoding/json"
 	"fmt"
 	"strings"
-	"time"
 
 	bs "github.com/danthegoodman1/bloomsearch"
 
@@ -205,7 +204,7 @@ func runC25(rc *RunCtx, i int) {
 	}
 	e := w.Eng[0]
 	run := func(q *bs.Query) (map[string]int, error) {
-		ctx, cancel := context.WithTimeout(context.Background(), 60*time.Second)
+		ctx, cancel := context.WithTimeout(context.Background(), core.Patience)
 		defer cancel()
 		res := world.RunQuery(ctx, e, q)
 		if res.QErr != nil {
